@@ -1165,3 +1165,51 @@ Proof.
   - destruct HW as [-> | ->]; vm_compute; discriminate.
   - apply page_words_fit_decided. destruct HW as [-> | ->]; vm_compute; reflexivity.
 Qed.
+(* the same page through the ANSI formatter (clean_layout by computation) *)
+Example ex_page_renders_ansi : forall W, W = 34%Z \/ W = 80%Z ->
+  exists s, render_page W ex_ansif (ex_page_for ex_ansif) = Ok s /\ Forall (fun ln => (zlen (strip_sgr ln) <= W - 1)%Z) (split_on 10%N s).
+Proof.
+  intros W HW.
+  assert (Forall arg_fine (chain_args ex_chain)) as A1 by (cbn; constructor; [exact ex_file_fine|constructor]).
+  assert (Forall opt_fine (own_opts ex_chain)) as A2 by (cbn; constructor; [exact ex_force_fine|constructor]).
+  assert (Forall opt_fine (base_opts ex_chain)) as A3 by (cbn; constructor; [exact ex_level_fine|constructor]).
+  assert (Forall sub_fine ex_subs) as A4 by (unfold ex_subs; repeat (constructor; [apply ex_sub_fine; ex_plain|]); constructor).
+  assert (Forall plain (chain_names ex_chain)) as A5 by (cbn; constructor; [ex_plain|constructor]).
+  assert (Forall no_nl (chain_names ex_chain)) as B1 by (cbn; repeat constructor; nl_char).
+  assert (Forall arg_one_line (chain_args ex_chain)) as B2 by (cbn; repeat constructor; nl_char).
+  assert (Forall opt_one_line (own_opts ex_chain)) as B3 by (cbn; repeat constructor; nl_char).
+  assert (Forall opt_one_line (base_opts ex_chain)) as B4 by (cbn; repeat constructor; nl_char).
+  assert (Forall sub_one_line ex_subs) as B5 by (cbn; repeat constructor; nl_char).
+  assert (no_nl APP) as B6 by (repeat constructor; nl_char).
+  assert (plain APP) as A6 by ex_plain.
+  assert (Forall no_lt [SRV]) as A7 by (repeat constructor; discriminate).
+  assert (no_lt (odesc (Some DESC_FILE))) as A8 by (apply no_ltb_ok; vm_compute; reflexivity).
+  assert (clean_layout (command_page (f_styles ex_ansif) (Some APP) ex_chain [SRV] (Some DESC_FILE) ex_subs)) as C
+    by (apply clean_layoutb_ok; vm_compute; reflexivity).
+  apply (command_help_renders_and_fits_ansi_visible W ex_ansif (Some APP) ex_chain [SRV] (Some DESC_FILE) ex_subs I B6 B1 B2 B3 B4 B5 A6 A5 A1 A2 A3 A4 A7 A8 C).
+  - destruct HW as [-> | ->]; vm_compute; discriminate.
+  - apply page_words_fit_decided. destruct HW as [-> | ->]; vm_compute; reflexivity.
+Qed.
+(* the application page of the examples above: needs 18 columns for its labels, 29 for the words of its tagged texts *)
+Definition ex_app_page_for (f : formatter) : layout :=
+  application_page (f_styles f) (Some APP) (Some APP) (Some ([49;46;50]%N)) [ex_force; ex_level] ex_cmds (Some DESC_FILE).
+Example ex_app_page_renders_plain : forall W, W = 29%Z \/ W = 80%Z ->
+  needed_width_for (f_styles ex_plainf) (ex_app_page_for ex_plainf) = 18%Z /\ page_words_fitb (f_styles ex_plainf) 28 (ex_app_page_for ex_plainf) = false /\
+  exists s, render_page W ex_plainf (ex_app_page_for ex_plainf) = Ok s /\ Forall (fun ln => (zlen ln <= W - 1)%Z) (split_on 10%N s).
+Proof.
+  intros W HW. split; [vm_compute; reflexivity|]. split; [vm_compute; reflexivity|].
+  assert (Forall opt_fine [ex_force; ex_level]) as A1 by (constructor; [exact ex_force_fine|constructor; [exact ex_level_fine|constructor]]).
+  assert (Forall (fun c => plain (ac_name c) /\ no_lt (ac_desc c)) ex_cmds) as A2
+    by (unfold ex_cmds; repeat (constructor; [split; [ex_plain|apply no_ltb_ok; vm_compute; reflexivity]|]); constructor).
+  assert (Forall opt_one_line [ex_force; ex_level]) as B1 by (cbn; repeat constructor; nl_char).
+  assert (Forall (fun c => no_nl (ac_name c)) ex_cmds) as B2 by (cbn; repeat constructor; nl_char).
+  assert (no_nl APP) as B3 by (repeat constructor; nl_char).
+  assert (plain APP) as A3 by ex_plain.
+  assert (no_lt (odesc (Some APP))) as A4 by (repeat constructor; discriminate).
+  assert (plain (odesc (Some ([49;46;50]%N)))) as A5 by ex_plain.
+  assert (no_lt (odesc (Some DESC_FILE))) as A6 by (apply no_ltb_ok; vm_compute; reflexivity).
+  apply (application_help_renders_and_fits_plain W ex_plainf (Some APP) (Some APP) (Some ([49;46;50]%N)) [ex_force; ex_level] ex_cmds (Some DESC_FILE)
+           eq_refl B3 B1 B2 A3 A4 A5 A1 A2 A6).
+  - destruct HW as [-> | ->]; vm_compute; discriminate.
+  - apply page_words_fit_decided. destruct HW as [-> | ->]; vm_compute; reflexivity.
+Qed.
